@@ -10,7 +10,7 @@ Arguments N.min : simpl never.
 
 Ltac mred := cbv beta iota; unfold ret; cbv beta iota; cbn [fst snd].
 
-Definition resizable_backend (b : bkind) : Prop := b = BHeap \/ b = BReloc.
+Definition resizable_backend (b : bkind) : Prop := b = BHeap \/ exists c0, b = BReloc c0.
 
 (** ** Auxiliary: [mem_resize] growing and shrinking *)
 Lemma mem_resize_grow c v u xs ncap :
@@ -20,7 +20,7 @@ Lemma mem_resize_grow c v u xs ncap :
     mem_resize c ncap (v, u) = Ok tt (v', u') /\ Rep c v' xs /\ vcap v' = ncap /\ vbk v' = vbk v /\ same_user u u'.
 Proof.
   intros Hwf HR Hb Hle Hmax Hlim. unfold mem_resize. mstep.
-  destruct Hb as [Hb|Hb]; rewrite Hb.
+  destruct Hb as [Hb|[c0 Hb]]; rewrite Hb.
   - destruct (heap_resize_grow c v u xs ncap Hwf HR Hle Hmax Hlim)
       as (v' & u' & E & H1 & H2 & H3 & H4 & H5 & H6).
     exists v', u'. splits; auto. congruence.
@@ -65,7 +65,7 @@ Proof.
   assert (Hnb : c_sz c * ncap <= c_sz c * vcap v) by (apply N.mul_le_mono_l; exact Hle).
   assert (Hu : c_sz c * ncap <= usize_max) by (unfold alloc_limit, usize_max in *; lia).
   unfold mem_resize. mstep.
-  destruct Hb as [Hb|Hb]; rewrite Hb.
+  destruct Hb as [Hb|[c0 Hb]]; rewrite Hb.
   - unfold heap_resize. mstep.
     destruct (N.eqb_spec (vcap v) ncap) as [E|NE].
     { exists v, u. splits; auto using same_user_refl. }
